@@ -221,6 +221,9 @@ namespace photon
 #ifdef PHOTON_VERIF_TSAN
         void* tsan_fiber = nullptr;
 #endif
+#ifdef PHOTON_VERIF
+        uint32_t verif_missed = 0;          // consecutive resume passes that left this expired sleeper behind
+#endif
 
         enum shift {
             joinable = 0,
@@ -534,10 +537,14 @@ namespace photon
         void verif_check_expired(uint64_t since)
         {
             auto mode = VERIF_TUNABLE(T_SLEEPQ_WALK);
-            if (likely(!(mode & 2))) return;
+            if (likely(!(mode & 6))) return;
             for (size_t i = 0; i < q.size(); ++i)
-                if (q[i]->state == states::SLEEPING && q[i]->ts_wakeup <= since)
-                    VERIF_EVENT(E_SLEEPQ_BAD, 3, i);
+                if (q[i]->state == states::SLEEPING && q[i]->ts_wakeup <= since) {
+                    if (mode & 2) VERIF_EVENT(E_SLEEPQ_BAD, 3, i);
+                    // bit 2 (value 4), usable with several vCPUs: another vCPU may set `now` back a little,
+                    // which can explain one missed pass, never a long run of them
+                    else if (++q[i]->verif_missed == 32) VERIF_EVENT(E_SLEEPQ_BAD, 4, i);
+                }
         }
 #endif
     };
@@ -1339,7 +1346,8 @@ R"(
     {
         int count = 0;
 #ifdef PHOTON_VERIF
-        uint64_t verif_since = 0;
+        uint64_t verif_since = now;
+        bool verif_checked = false;
 #endif
         thread_list list;
         auto& standbyq = vcpu->standbyq;
@@ -1382,9 +1390,13 @@ R"(
         } while(!sleepq.empty());
 #ifdef PHOTON_VERIF
         sleepq.verif_check_expired(verif_since);
+        verif_checked = true;
 #endif
         if (count) {
 insert_list:
+#ifdef PHOTON_VERIF
+            if (!verif_checked) sleepq.verif_check_expired(verif_since);   // the pass ended without looking at the heap
+#endif
             AtomicRunQ(runq).insert_list_before(list);
         }
         return count;
@@ -1458,6 +1470,9 @@ insert_list:
         // thread_yield() (e.g. before it ever ran) must not end this later,
         // unrelated sleep -- just as thread_yield() clears it on entry
         rq.current->error_number = 0;
+#ifdef PHOTON_VERIF
+        rq.current->verif_missed = 0;
+#endif
         assert(!AtomicRunQ(rq).single());
         auto sw = AtomicRunQ(rq).remove_current(states::SLEEPING);
         if (waitq) {
